@@ -259,9 +259,9 @@ def scMon (m : MSt) (op : List String) (exts : List (List String)) (obs : Option
       else if which == "cs" && inWindow then
         (if isDropped then [] else
           [fail "recent-drop-gap-not-covered" s!"trace {id} was recorded/answered dropped within the recent-drop TTL, yet cs answered {o}"])
-      else if which == "ct" && inWindow && m.queue.contains id then
+      else if which == "ct" && inWindow then
         (if isDropped then [] else
-          [fail "checktrace-ignores-recent-drops" s!"trace {id} was recorded dropped and is still in the add queue; CheckTrace answered {o}"])
+          [fail "checktrace-ignores-recent-drops" s!"trace {id} was recorded/answered dropped within the recent-drop TTL; CheckTrace answered {o}"])
       else []
     let fsK :=
       if m.recency.contains id then
